@@ -36,6 +36,40 @@ META["text"] += " R6 also: NENAssertion.subsumes holds iff every tail the other 
 META["text"] += ' R6 also: the search ranges over the contest and winner handed in (the parameters are not re-bound, the candidate list is not edited).'
 
 
+def r3_estimates(chk):
+    """R3 also: the search treats an infinite estimate as 'no assertion here'.  The difficulty functions shipped with the library
+    must therefore be finite for every strict win they are asked about: a path that returns inf / None (or raises) may only be
+    taken under an exact sign test of the margin (`margin <= 0`, `winner <= loser`), never under a tolerance (`np.isclose`,
+    `abs(m) < eps`), which declares a narrow but real win unauditable."""
+    RE_ = "shangrla/raire/sample_estimator.py"
+    n = 0
+    for q in ("bp_estimate", "cp_estimate"):
+        if not chk.idx.has_func(RE_, q):
+            continue
+        fn = chk.fn(RE_, q)
+        problems = []
+        for r in [x for x in walk_local(fn) if isinstance(x, (ast.Return, ast.Raise))]:
+            special = isinstance(r, ast.Raise) or r.value is None or any(
+                (isinstance(x, ast.Attribute) and x.attr in ("inf", "nan", "Inf", "infty")) or
+                (isinstance(x, ast.Constant) and (x.value is None or (isinstance(x.value, str) and x.value.lower() in ("inf", "nan"))))
+                for x in ast.walk(r.value))
+            if not special:
+                continue
+            tests = [a.test for a in ancestors(r) if isinstance(a, ast.If)]
+            if not tests:
+                problems.append(f"line {r.lineno}: unconditional {norm(r)[:40]}")
+            for t in tests:
+                exact = isinstance(t, ast.Compare) and len(t.ops) == 1 and isinstance(t.ops[0], (ast.Lt, ast.LtE, ast.Gt, ast.GtE)) \
+                    and not any(isinstance(x, ast.Call) for x in ast.walk(t))
+                if not exact:
+                    problems.append(f"line {r.lineno}: {norm(r)[:30]} under `{norm(t)[:50]}`, which is not an exact sign test")
+        n += 1
+        chk.ob("C04.R3", f"{RE_}:{q}", "estimate-finite-on-strict-wins", not problems,
+               "the difficulty estimate is a finite number for every strict win: no inf / None / exception except under an exact sign "
+               "test of the margin", node=fn, strength="N", **({"problems": problems} if problems else {}))
+    chk.need("C04.R3", n, 2, "difficulty functions in raire/sample_estimator.py")
+
+
 def run(chk):
     chk.explain("R1 tally guard and report at the NEB and NEN creation sites; R2 contest identifier kind at every instantiation; R3 None "
                 "discipline of RaireNode.best_assertion; R4 `[]` only when the audit is not possible.")
@@ -43,6 +77,7 @@ def run(chk):
     r1(chk)
     r2(chk)
     r3(chk)
+    r3_estimates(chk)
     r4(chk)
     r5(chk)
     r6(chk)
